@@ -774,4 +774,32 @@ theorem codev_unit_invariant (n w ssz : ℚ) (hw : w ≠ 0) (hs : ssz ≠ 0) :
   field_simp
 
 example : (fun y : ℚ => y) (zygoWvlWrite (6328 / 10000)) ≠ 0 := by norm_num [zygoWvlWrite]
+
+/-! ## intensity read-back; Code V preamble (session 3) -/
+
+/-- the intensity block reads back: sample `i` of a block of 16-bit values stored little-endian after a header (any prefix)
+is the value stored, whatever follows the block -/
+theorem intensity_roundtrip (pre v rest : List Nat) (hv : ∀ x ∈ v, x < 65536) (i : Nat) (hi : i < v.length) :
+    intensityAt (pre ++ (intensityBytes v ++ rest)) pre.length i = v.getD i 0 :=
+  C14L.intensity_roundtrip pre v rest hv i hi
+
+/-- the comment loop of the source's Code V reader is the model's: strip blanks and tabs, test for `!`, skip to the character
+after the next newline (raise when there is none); then title and header are the next two lines -/
+theorem gen_codev_preamble :
+    cvCommentStrip = cvStripChars.map Char.toNat ∧ cvCommentMarkerCode = Model.C14.cvCommentMarker.toNat ∧
+    cvCommentLoopOk = true ∧ cvTitleHeaderSplit = true := by decide
+
+/-- Code V preamble, over the strip characters and marker GENERATED from the source: any number of comment lines (each
+starting, after those characters, with the marker) is skipped, the next line is the title, the next the header, the rest
+the data block — for every title, header and data text -/
+theorem codev_preamble_roundtrip (cs : List (List Char))
+    (hc : ∀ l ∈ cs, isBangG (cvCommentStrip.map Char.ofNat) (Char.ofNat cvCommentMarkerCode) l = true ∧ '\n' ∉ l)
+    (title hdr data : List Char) (ht : '\n' ∉ title) (hh : '\n' ∉ hdr)
+    (hr : isBangG (cvCommentStrip.map Char.ofNat) (Char.ofNat cvCommentMarkerCode) (title ++ '\n' :: (hdr ++ '\n' :: data)) = false) :
+    cvPreambleG (cvCommentStrip.map Char.ofNat) (Char.ofNat cvCommentMarkerCode)
+      (cs.flatMap (· ++ ['\n']) ++ (title ++ '\n' :: (hdr ++ '\n' :: data))) = some (title, hdr, data) :=
+  preamble_roundtrip _ _ cs hc title hdr data ht hh hr
+
+example : cvPreamble [' ', '!', 'a', '\n', '!', '\n', 'T', ' ', '1', '\n', 'G', '\n', '5', '\n'] = some (['T', ' ', '1'], ['G'], ['5', '\n']) := by decide
+example : cvPreamble ['!', ' ', 'a'] = none := by decide
 end C14
